@@ -23,8 +23,124 @@ def async_adapters(chk, st):
                       % (what, c, o[:300], len(bad)))
 
 
+# ---------------------------------------------------------------- Generic lifecycles (coq/theories/GenLife.v, harness/src/m_genlife.rs)
+def gen_genlife(rnd, n):
+    """histories of new / set / register / reregister / unregister / unwrap / drop over up to 4 Generic objects and 3 eventfds
+    (two objects may wrap the same fd: the second registration fails with EEXIST). Mostly valid operations, some on objects that
+    do not exist or are not registered."""
+    cases = []
+    for _ in range(n):
+        live, ops = {}, []          # g -> registered?
+        for _ in range(rnd.randint(4, 26)):
+            k = rnd.random()
+            g = rnd.choice(list(live.keys())) if live and rnd.random() < 0.9 else rnd.randint(1, 5)
+            regd = [x for x, v in live.items() if v]
+            if 0.55 <= k < 0.80 and regd and rnd.random() < 0.8:
+                g = rnd.choice(regd)          # reregister / unregister mostly aim at an object believed to be registered
+            elif 0.22 <= k < 0.45 and rnd.random() < 0.7:
+                unreg = [x for x, v in live.items() if not v]
+                if unreg:
+                    g = rnd.choice(unreg)
+            if k < 0.22 or not live:
+                g = rnd.randint(1, 5)
+                ops.append("n%d:%d:%d:%d" % (g, rnd.choice([10, 10, 11, 12]), rnd.choice([1, 2, 3, 1, 0]), rnd.choice([0, 0, 1, 2])))
+                live.setdefault(g, False)
+            elif k < 0.45:
+                ops.append("r%d:%d" % (g, rnd.randint(0, 6)))
+                if g in live:
+                    live[g] = True              # a guess (it fails on a shared fd): the oracle follows the result codes, not this
+            elif k < 0.55:
+                ops.append("s%d:%d:%d" % (g, rnd.choice([1, 2, 3, 0]), rnd.choice([0, 1, 2])))
+            elif k < 0.68:
+                ops.append("m%d:%d" % (g, rnd.randint(0, 6)))
+            elif k < 0.80:
+                ops.append("u%d" % g)
+                if g in live:
+                    live[g] = False
+            elif k < 0.90:
+                ops.append("w%d" % g)
+                live.pop(g, None)
+            else:
+                ops.append("d%d" % g)
+                live.pop(g, None)
+        cases.append(" ".join(ops))
+    return cases
+
+
+def judge_genlife(case, out):
+    """C16 restated on the implementation's own output: after every operation the kernel's table is exactly {fd of every registered
+    Generic -> (interest, mode, key) it last (re)registered}. Registration state is followed from the result codes."""
+    gens, reg = {}, {}        # g -> [fd, it, md] ; g -> (it, md, key) when registered
+    ops, res = case.split(), out.split()
+    if len(ops) != len(res):
+        return "output has %d entries for %d operations: %s" % (len(res), len(ops), out[:200])
+    for i, (op, r) in enumerate(zip(ops, res)):
+        code, tbl = r.split("/")
+        code = int(code)
+        kind, f = op[0], [int(x) for x in op[1:].split(":")]
+        g = f[0]
+        if kind == "n" and code == 0:
+            gens[g] = [f[1], f[2], f[3]]
+        elif kind == "s" and code == 0:
+            gens[g][1:] = [f[1], f[2]]
+        elif kind in "rm" and code == 0:
+            reg[g] = (gens[g][1], gens[g][2], f[1])
+        elif kind == "u" and code == 0:
+            reg.pop(g, None)
+        elif kind in "wd" and code == 0:
+            reg.pop(g, None)
+            gens.pop(g, None)
+        want = sorted((((gens[g][0] * 4 + it) * 4 + md) << 64) + key for g, (it, md, key) in reg.items())
+        got = [] if tbl == "-" else sorted(int(x) for x in tbl.split(","))
+        if got != want:
+            def show(c):
+                return "fd %d interest %d mode %d key %d" % ((c >> 64) // 16, ((c >> 64) // 4) % 4, (c >> 64) % 4, c & ((1 << 64) - 1))
+            return ("after operation %d (%s, result %d) the kernel's table is [%s] but the registered Generics are [%s]"
+                    % (i + 1, op, code, "; ".join(show(c) for c in got), "; ".join(show(c) for c in want)))
+    return None
+
+
+def genlife(chk, st):
+    import random
+    import vlib
+    rnd = random.Random(chk.seed * 7919 + 16)
+    directed = ["n1:10:1:0 r1:0 w1 n2:10:1:0 r2:1 d2",
+                "n1:10:1:0 r1:0 u1 w1 n2:10:3:2 r2:3 u2 d2",
+                "n1:10:1:0 n2:10:2:1 r1:0 r2:1 w2 d1 n3:10:1:0 r3:2 w3",
+                "n1:10:1:0 r1:0 s1:3:2 m1:4 w1 n1:10:1:0 r1:5 d1 n1:10:2:0 r1:6"]
+    cases = directed + gen_genlife(rnd, 400 if chk.tier == "quick" else 12000)
+    impl, ilog = vlib.run_impl(["genlife"], cases, timeout=900)
+    model, mlog = vlib.run_model(["genlife"], cases)
+    div = [(c, a, b) for c, a, b in zip(cases, impl, model) if a != b]
+    bad = [(c, o, judge_genlife(c, o)) for c, o in zip(cases, impl)]
+    bad = [(c, o, w) for c, o, w in bad if w]
+    import collections
+    hist = collections.Counter()
+    for c, o in zip(cases, impl):
+        for op, r in zip(c.split(), o.split()):
+            hist["%s->%s" % (op[0], r.split("/")[0])] += 1
+    chk.cov["generic_lifecycle"] = {"histories": len(cases), "model_impl_divergences": len(div), "oracle_failures": len(bad),
+                                    "op_result_histogram": dict(sorted(hist.items())),
+                                    "rule": "real Generic + kernel epoll table (/proc) vs coq/theories/GenLife.v (extracted), compared after every "
+                                            "operation; oracle = C16 restated on the implementation's output (theorem C16_generic_table_exact)"}
+    if bad:
+        c, o, w = min(bad, key=lambda x: len(x[0]))
+        chk.violation("oracle-genlife", "C16 violated on the real code: %s\ngenlife case: %s\n# implementation: %s\n(%d failing histories)"
+                      % (w, c, o, len(bad)))
+    elif div:
+        c, a, b = div[0]
+        chk.violation("genlife-diverge", "correspondence broken: Generic lifecycle model and implementation differ on %d of %d histories\n"
+                      "genlife case: %s\n# implementation: %s\n# model:          %s\nthe C16 oracle accepts all implementation outputs"
+                      % (len(div), len(cases), c, a, b), nofail=True)
+
+
+def extra(chk, st):
+    async_adapters(chk, st)
+    genlife(chk, st)
+
+
 def main(tier, seed):
-    return p_seqprops.run("C16", tier, seed, PROFILES, props=PROPS, extra_front=async_adapters)
+    return p_seqprops.run("C16", tier, seed, PROFILES, props=PROPS, extra_front=extra)
 
 
 def replay(path):
@@ -37,4 +153,15 @@ def replay(path):
         for c, o in zip(cases, impl):
             print(c, "->", o[:200])
         return 0 if all("epoll_clean=1" in o and "readapt=1" in o for o in impl) else 1
+    if "genlife case:" in txt:
+        import vlib
+        cases = [l.split(":", 1)[1].strip() for l in txt.split("\n") if l.startswith("genlife case:")]
+        vlib.build_harness()
+        impl, _ = vlib.run_impl(["genlife"], cases)
+        rc = 0
+        for c, o in zip(cases, impl):
+            w = judge_genlife(c, o)
+            print(c, "->", o[:300], "|", w or "ok")
+            rc = rc or (1 if w else 0)
+        return rc
     return p_seqprops.replay("C16", path, props=PROPS)
